@@ -62,11 +62,16 @@ def build(idx, sym, spec, m=None, top=True):
         t = sym.text(spec['text']); out['_text'] = t
         v = Agg([Enum('Cow', 1, {1: Agg([t])})], 'RawStringSource')
     elif k == 'raw':
+        if 'bytes' in spec:
+            t = StrV(tuple(spec['bytes'])); out['_text'] = t
+            bi = idx.enums['RawValue'].index('Buffer')
+            v = idx.mk('RawSource', value=Enum('RawValue', bi, {bi: Agg([vec([IntV(b, 'u8') for b in t.bytes()])])}), value_as_string=Agg([none()], 'OnceCell'))
+            return v, out
         t = sym.text(spec['text']); out['_text'] = t
         v = idx.mk('RawSource', value=Enum('RawValue', idx.enums['RawValue'].index('String'), {idx.enums['RawValue'].index('String'): Agg([Enum('Cow', 1, {1: Agg([t])})])}),
                    value_as_string=Agg([none()], 'OnceCell'))
     elif k == 'rawbuf':
-        t = sym.text(spec['text']); out['_text'] = t
+        t = StrV(tuple(spec['bytes'])) if 'bytes' in spec else sym.text(spec['text']); out['_text'] = t
         v = idx.mk('RawBufferSource', value=vec([IntV(b, 'u8') for b in t.bytes()]), value_as_string=Agg([none()], 'OnceCell'))
     elif k == 'concat':
         ch = [build(idx, sym, c, m, False) for c in spec['children']]
@@ -201,6 +206,9 @@ def mapping_text(sym, text, mp, out, key):
         prev = None
         for (l, c, o) in exp:
             ll = len(lines) if not text.endswith('\n') else len(lines) - 1
+            if text.endswith('\n') and l == ll + 1 and text:
+                sym.st.pc.append(c == 0)            # zero-width segment at the very end of the text
+                prev = (l, c); continue
             if l > max(ll, 1): sym.st.pc.append(z3.BoolVal(False)); continue
             sym.st.pc.append(z3.ULT(c, max(1, len(lines[l - 1]) + (1 if l < len(lines) else 0))))
             if prev is not None and prev[0] == l: sym.st.pc.append(z3.UGT(c, prev[1]))
@@ -227,7 +235,9 @@ def concretize_spec(mdl, spec, m=None, st=None):
     """concrete representative of the tree under the model; with m/st given, also checks that the path determines the
     character classes the oracles depend on (all classes for OriginalSource texts, line breaks elsewhere)"""
     out = {k: v for k, v in spec.items() if not k.startswith('_')}
-    if '_text' in spec:
+    if '_text' in spec and 'bytes' in spec:
+        out['text'] = bytes(spec['bytes']).decode('utf-8', 'replace')
+    elif '_text' in spec:
         if m is not None: out['text'] = det_text(m, st, mdl, spec['_text'], 'full' if spec['kind'] == 'orig' else True)
         else: out['text'] = bytes(mval(mdl, b) for b in spec['_text'].bytes()).decode('utf-8', 'replace')
     if 'children' in spec: out['children'] = [concretize_spec(mdl, c, m, st) for c in spec['children']]
@@ -443,12 +453,14 @@ def to_obs(m, s, mdl, raw, idx):
             if isinstance(x, RopeV): x = x.flat()
             if isinstance(x, Agg): x = StrV(tuple(b.e for b in x.f))
             obs.setdefault('views', {})[w] = det_text(m, s, mdl, x)
+            if w == 'buffer': obs['views']['buffer_bytes'] = [det_int(m, s, mdl, b) if not isinstance(b, int) else b for b in x.bytes()]
         elif w == 'size':
             obs.setdefault('views', {})['size'] = det_int(m, s, mdl, val)
         elif w in ('clone', 'hash'):
             pass
         elif w == 'writer':
             obs.setdefault('views', {})['writer'] = det_text(m, s, mdl, val[0])
+            obs['views']['writer_bytes'] = [det_int(m, s, mdl, b) if not isinstance(b, int) else b for b in val[0].bytes()]
             if disc_int(val[1]) != 0: obs['views']['writer_err'] = True
         elif w == 'writerfail':
             obs.setdefault('views', {})['writerfail'] = {'written': det_text(m, s, mdl, val[0]), 'err': disc_int(val[1]) != 0, 'k': det_int(m, s, mdl, val[2])}
